@@ -1418,6 +1418,9 @@ class LangServer:
                 ast_old = file_obj.ast
                 if ast_old is not None:
                     self._remove_global_objects(ast_old, filepath)
+                # Update include statements linking to this file
+                for _, tmp_file in self.workspace.items():
+                    tmp_file.ast.resolve_includes(self.workspace, path=filepath)
                 # Update the links of the remaining files
                 self.link_version = (self.link_version + 1) % 1000
                 for _, tmp_file in self.workspace.items():
